@@ -12,14 +12,18 @@ CFG = {
         "Leptos.Keyed.C11_identity",
         "Leptos.Keyed.C11_set_index",
         "Leptos.Keyed.C11_identity_nodes_leave",
-        "Leptos.Keyed.C11_dom_order_witness",
-        "Leptos.Keyed.C11_dom_order_partial",
-        "Leptos.Keyed.C11_dom_order_iff",
+        "Leptos.Keyed.C11_settled_monotone",
+        "Leptos.Keyed.C11_dom_order",
         "Leptos.Keyed.C11_history",
-        "Leptos.Keyed.C11_history_dom_order_partial",
-        "Leptos.Keyed.rebuild_summary",
+        "Leptos.Keyed.C11_history_dom_order",
+        "Leptos.Keyed.C11_dom_order_old_witness",
+        "Leptos.Keyed.C11_dom_order_old_iff",
+        "Leptos.Keyed.rebuildWith_summary",
         "Leptos.Keyed.applyDiff_summary",
         "Leptos.Keyed.rebuild_mounted",
+        "Leptos.Keyed.rebuild_ordered_iff",
+        "Leptos.Keyed.settledMonotone_diff",
+        "Leptos.Keyed.kept_fold",
         "Leptos.Keyed.place_all",
         "Leptos.Keyed.witnessState_wf",
         "Leptos.Keyed.witnessState_mounted",
@@ -36,8 +40,8 @@ CFG = {
             "1..3 nodes per item, 0..2 siblings on each side, a quarter through <ForEnumerate>; distinct = distinct op lines of a case; "
             "non-trivial = every case (each performs at least one list operation). THOROUGH tier additionally: every ordered pair of "
             "duplicate-free sequences of length <= 6 over 7 keys (8660^2 = 74 995 600 transitions) is run on the real code inside the "
-            "generator (all cores) and judged by the implementation-side oracle; every transition it rejects (211 680 = 0.282 % on the "
-            "pinned tree) and every 64th other one is written to the ops file and replayed through the model (cases y<i>)",
+            "generator (all cores) and judged by the implementation-side oracle; every transition it rejects (none since the repair of "
+            "F-C11-1; 211 680 before) and every 64th other one is written to the ops file and replayed through the model (cases y<i>)",
     "trusted": [
         "hooks/native_dom.patch: tachys::renderer::native_dom (in-memory DOM with insertBefore/remove semantics) standing in for the browser DOM",
         "the harness' Tracked<V> wrapper view (logs unmount calls, records the element ids of built items) and, for <ForEnumerate>, "
@@ -58,17 +62,17 @@ CFG = {
                 "siblings before/after the list, any block sizes, and all histories of updates: unpack_moves returns every single move and every add; "
                 "after rebuild rendered_items is exactly the new sequence (no holes, no panic); items whose key is retained are the very same items "
                 "(never rebuilt), new keys are built exactly once with their index, vanished keys are unmounted exactly once and their nodes leave the "
-                "parent; every retained item whose index changed is told its final index exactly once. The full DOM-order statement is REFUTED by a "
-                "kernel-checked witness ([0,1,2] -> [4,3,2,1,0] leaves the children as 1,4,3,2,0: finding F-C11-1, confirmed on the real keyed() and "
-                "<ForEnumerate>); the strongest partial statement is proved instead: the children end as pre ++ blocks of the new sequence ++ marker :: post "
-                "under the decidable hypothesis settledMonotone(from,to) (the items that are neither removed nor re-inserted keep their relative order), "
-                "lifted to histories in which every step satisfies it. Tied to the code by a differential run of the real tachys keyed()/leptos "
-                "<ForEnumerate> on the native in-memory DOM against the compiled model: exhaustively all 1 530 169 transitions between sequences of length "
-                "<= 5 over 6 keys on every run (the hypothesis holds on 99.859 % of them; the other 2160 are exactly the transitions the real code gets "
-                "wrong), 74 995 600 transitions of length <= 6 over 7 keys in the thorough tier (99.718 %), plus seeded random histories.",
+                "parent; every retained item whose index changed is told its final index exactly once; and the parent's children end as "
+                "pre ++ blocks of the new sequence in order ++ marker :: post after every update of every history (C11_dom_order, full since the repair "
+                "of finding F-C11-1 by a fix: commit in /repo: diff() now skips the DOM move of an item only if it overtakes no other item that stays put; "
+                "the pre-repair functions are kept as diffOld with a kernel-checked regression witness [0,1,2] -> [4,3,2,1,0] => 1,4,3,2,0 and the exact "
+                "characterisation of the old failure class). Tied to the code by a differential run of the real tachys keyed()/leptos <ForEnumerate> on "
+                "the native in-memory DOM against the compiled model: exhaustively all 1 530 169 transitions between sequences of length <= 5 over 6 "
+                "keys on every run, 74 995 600 transitions of length <= 6 over 7 keys in the thorough tier, plus seeded random histories.",
         "design_ref": "DESIGN.md §7 C11",
         "note": "model hand-written, faithfulness checked by correspondence (observable: child list with node identity, KeyedState::elements(), "
-                "view_fn / unmount / set_index call logs); the browser DOM is replaced by the native DOM hook; DOM-order theorem partial (known finding F-C11-1); "
+                "view_fn / unmount / set_index call logs); the browser DOM is replaced by the native DOM hook; F-C11-1 repaired in /repo (fix: commit), "
+                "regression witness kept in corpus/C11 and as C11_dom_order_old_witness; "
                 "reactive_stores keyed fields not covered here",
         "technique": "Lean 4 proof (induction over lists, loop invariants) + kernel-checked refutation witness + differential correspondence on the native DOM",
     },
